@@ -184,6 +184,22 @@ def do_op(p, op, user_model, field):
         except Exception as e:
             return f"assigning a foreign State raised {type(e).__name__} instead of InvalidStateValue"
         return f"assigning a foreign State with unmapped value {op[1]!r} was accepted"
+    if k == "bad-setstate-like":
+        # a State of another machine class that looks like one of ours (same id and name) but
+        # carries a value this machine does not map
+        from statemachine import State
+        own = getattr(type(sm), op[1])
+        foreign = State(own.name, value=op[2])
+        foreign._set_id(own.id)
+        try:
+            sm.current_state = foreign
+        except InvalidStateValue:
+            return None
+        except Exception as e:
+            return (f"assigning a look-alike foreign State raised {type(e).__name__} instead of "
+                    f"InvalidStateValue")
+        return (f"assigning a foreign State (same id/name as {op[1]}, unmapped value {op[2]!r}) "
+                f"was accepted")
     if k == "ev-write":
         # an event during which one callback writes another valid value to the model: the
         # transition still assigns its target after `on` (the value written in before/exit/on is
@@ -222,6 +238,7 @@ def ops_alphabet(m, i):
                 ("setattr", s.id)]
     ops += [("bad-setval", b) for b in BAD] + [("bad-setattr", BAD[0]), ("bad-setattr", BAD[1])]
     ops += [("bad-setstate", BAD[0]), ("bad-setstate", BAD[1])]
+    ops += [("bad-setstate-like", m.states[0].id, BAD[0]), ("bad-setstate-like", m.states[-1].id, BAD[1])]
     for ev in ("n", "k"):
         for phase in ("before", "on", "enter", "after"):
             if ev == "k" and phase == "enter":
